@@ -23,35 +23,35 @@ def _p(expl, notdec, extra_assume=()):
 PROPS = {
     "C01": _p("Clause decided: every selected response key becomes a model member under an alias equal to the key, "
               "every fragment spread is accounted for, abstract positions get __typename injected and a Literal, "
-              "annotation/class pairing, related classes generated.",
+              "annotation/class pairing, related classes generated; one class per type condition of an interface field (inline fragments and spreads on subtypes); shared model configuration table.",
               "acceptance/preservation of payloads by pydantic for all operation x response shapes; enum member mapping; model_dump round trip"),
     "C02": _p("Clause decided: the operation string reaches the written client only through literal-preserving functions; "
               "@mixin removal covers the directive's locations; authored graphql nodes are only mutated by the two documented rewrites; "
               "fragment closure is recursive and exhaustive; operation name / query binding; validation uses the full rule set.",
               "AST-equality of the embedded document for all literals and fragment graphs; validity for every fragment graph"),
     "C03": _p("Clause decided: wire keys of the variables dict come from the GraphQL variable names; optional args default to UNSET; "
-              "UNSET filter and by_alias/exclude_unset dump in every base client; input aliases + populate_by_name; template locals cannot capture arguments.",
+              "UNSET filter and by_alias/exclude_unset dump in every base client; input aliases + populate_by_name; template locals cannot capture arguments; wrapper table of operation variable types (list / non-null / named, custom scalar through lists).",
               "that the JSON coerces back to the caller's values for all type shapes; pydantic's handling of enums/nested models"),
     "C04": _p("Clause decided: no reserved type redefinition; written files = reported files; collision check covers written names and precedes writes; "
-              "used names are imported; __all__ = re-exports; model_rebuild for forward refs; raise discipline; enum member escaping.",
+              "used names are imported; __all__ = re-exports; model_rebuild for forward refs; raise discipline; enum member escaping; per-kind type selections keep everything but `__` names; module names / imports / fragment tables threaded to every generator.",
               "importability of every emitted package (requires running the generator and Python); autoflake never pruning a needed import"),
     "C05": _p("Clause decided: nullable-flag transfer across List/NonNull in the result mapper; Optional iff nullable or @skip/@include; "
-              "__typename Literal; scalar image table; validation mode.",
+              "__typename Literal; scalar image table; validation mode; a selected field is typed from its own schema definition (`__typename` fallback String!, unknown field rejected).",
               "rejection of each corrupted payload by pydantic; exact annotation image for all nestings"),
     "C06": _p("Clause decided: nullable-flag transfer in the input mappers (sibling agreement with the result mapper); const-value kind exhaustiveness; "
-              "enum default literal context; required-ness paths; alias keeps default; default source; populate_by_name.",
+              "enum default literal context; required-ness decision table (with and without SDL nodes); alias keeps default; default source; populate_by_name.",
               "value of emitted default expressions; coincidence of pydantic validation and GraphQL input coercion"),
     "C07": _p("Clause decided: parse/serialize wrappers sit innermost (inside Optional/List), are emitted only when configured; "
-              "top-level variable serialisation depends on wrappers (information-flow); imports for type/parse/serialize emitted in every consumer.",
+              "top-level variable serialisation depends on wrappers (information-flow); imports for type/parse/serialize emitted in every consumer; argument values wrapped in serialize iff configured (parse plays no role); custom_scalars threaded to every generator.",
               "run-time call counts of parse/serialize inside pydantic"),
     "C08": _p("Clause decided: the mixin-vs-unpack decision paths; a fragment used as a base is never excluded from fragments.py; "
               "post-order of the fragment DFS; @mixin bases paired with imports.",
               "isinstance/MRO facts of imported classes; model_validate on sub-payloads"),
     "C09": _p("Clause decided: every producer of used enums is consumed before enums are pruned; typestate of the input generator; "
-              "input dependency closure is complete; filters only select.",
+              "input dependency closure is complete; filters only select; accessors return the accumulator they are named after and aggregating generators feed theirs from every sub-generator.",
               "behavioural identity of pruned and unpruned packages"),
     "C10": _p("Clause decided (sufficient condition): no unordered source (set iteration, directory listing) reaches emitted order except through "
-              "an order-normalising sink; no ambient input (time, random, env) reaches emitted text; target directory is write-only.",
+              "an order-normalising sink; no ambient input (time, random, env) reaches emitted text; target directory is write-only and created only when missing.",
               "determinism of the third-party formatters themselves (trusted)"),
     "C11": _p("Clause decided: the four bundled clients agree after async/telemetry erasure; body keys and provenance; header merge order; "
               "upload extraction paths; no shared mutable state on the client; UNSET filter / dump flags.",
@@ -63,21 +63,21 @@ PROPS = {
               "dispatch exhaustive over the message-type enum with the required effect per branch; frame loop yields handler results; payload shapes; OTel twin equality.",
               "behaviour over frame sequences against a live library"),
     "C14": _p("Clause decided: wire names in emitted builders come from schema names; variable type strings keep wrappers; no shared mutable builder instances; "
-              "no discarded recursive result; unique variable names; None arguments filtered; assembly of the document.",
+              "no discarded recursive result; unique variable names; None arguments filtered; assembly of the document; non-null marker follows required-ness; client.query / client.mutation build their own operation type.",
               "validity of built documents for all schemas and expression trees"),
     "C15": _p("Clause decided: identity base hooks; ordered dispatch threading the result; hook table agreement; write sets of bundled plugins; "
-              "ShorterResults unwraps the same value; ExtractOperations strings; ImportFrom level consistency.",
+              "ShorterResults unwraps the same value (and exactly the Annotated[T, meta] wrapper); ExtractOperations strings; ImportFrom level consistency; hook firing order vs. plugin state; plugin manager threaded to every generator.",
               "differential behaviour plugged vs. unplugged for all inputs"),
     "C16": _p("Clause decided: emitted constructor keyword coverage against graphql-core's to_kwargs; attribute pass-through; named-type kind exhaustiveness; "
-              "lazy references inside the type map; variable names; SDL target prints the validated schema.",
+              "lazy references inside the type map; variable names threaded unchanged through every generator; SDL target prints the validated schema; explicit UTF-8 for targets and inputs.",
               "equality of the schema obtained by executing the generated module; fidelity of repr-embedded literals"),
     "C17": _p("Clause decided: every name/path setting is validated; identifier predicate rejects keywords; validation not made vacuous by assume_valid; "
-              "validate-before-write dominance in main; typed errors; configuration not mutated; full operation validation.",
+              "validate-before-write dominance in main; typed errors (section lookup table, message carries every validation error); configuration not mutated; full operation validation.",
               "completeness of graphql-core's own validation; failures arising inside generate()"),
     "C18": _p("Clause decided: tokeniser regex covers every letter and digit (automaton emptiness); identifier-ness mechanisms of process_name; "
-              "wire vs. Python name colouring; presence of a collision mechanism per scope; reserved names; purity.",
+              "wire vs. Python name colouring; presence of a collision mechanism per scope; reserved names; purity; process_name decision table; convert_to_snake_case threaded to every generator.",
               "idempotence and pairwise collision-freedom over all strings"),
     "C19": _p("Clause decided: no SDL-only datum (ast_node) reaches emitted code; file partition independence (sorted walk, suffix set); "
-              "introspection failure discipline as a CFG property; request parameters provenance.",
+              "introspection failure discipline as a CFG property; request parameters provenance; file and URL sources agree on the validation mode; input defaults do not depend on SDL nodes.",
               "equality of packages generated from different sources"),
 }
